@@ -420,6 +420,12 @@ def _pop_line_before_zid(words: list[str]) -> str:
         and words[0][1].isdigit()
     ):
         priority = f"{words.pop(0)} "
+
+    # Extra spaces between a note's symbol / priority and its text are not
+    # part of the note's (indexed) body, so they must not end up behind the
+    # ZID / modify date either.
+    while len(words) > 1 and words[0] == "":
+        words.pop(0)
     return f"{spaces}{symbol} {priority}"
 
 
